@@ -46,6 +46,16 @@ func runC03(o opts) error {
 		for i := 0; i < nq/2; i++ {
 			scns = append(scns, c03.Backpressure(rng))
 		}
+		nk := 24
+		if o.tier == "thorough" {
+			nk = 400
+		}
+		for i := 0; i < nk; i++ {
+			scns = append(scns, c03.EscC0ThenKeys(rng), c03.EscPrefixed(rng), c03.CprTiming(rng), c03.CprTiming(rng))
+		}
+		for i := 0; i < nk/4; i++ {
+			scns = append(scns, c03.EscSosPm(rng))
+		}
 	}
 	sink, err := trace.NewSink(o.out, o.shards)
 	if err != nil {
@@ -72,7 +82,8 @@ func runC03(o opts) error {
 				if k == "esckey" {
 					k = "key"
 				}
-				reports = append(reports, map[string]any{"k": k, "code": rp.Code, "pb": rp.Pb, "x": rp.X, "y": rp.Y, "final": rp.Final})
+				reports = append(reports, map[string]any{"k": k, "code": rp.Code, "pb": rp.Pb, "x": rp.X, "y": rp.Y, "final": rp.Final,
+					"mods": rp.ModsP1 - 1, "cls": rp.Cls, "opt": rp.Opt})
 			}
 		}
 		for _, e := range r.Events {
